@@ -147,6 +147,25 @@ def check_broadcast(states, kden, rng):
             viol.append(('broadcast evaluation raised %r' % ex, {'curves': len(df)}, None, None))
     if not (df.equals(df0) and loads.equals(loads0)):
         viol.append(('broadcast evaluation modified its operands', {}, None, None))
+    # a curve table whose columns hold whole numbers as INTEGERS (typed in by hand / read from a spreadsheet): as the same table in floats, and as curve by curve
+    try:
+        ti = pd.DataFrame({'k_1': [5, 7, 3], 'SD': [300, 250, 410], 'ND': [1000000, 2000000, 500000]}, index=pd.Index([3, 13, 23], name='element_id'))
+        tf = ti.astype(np.float64)
+        cyc = pd.Series([3.0e4, 4.5e5, 7.0e6], index=pd.Index(['a', 'b', 'c'], name='scenario'))
+        lds = pd.Series([210.0, 333.3, 777.0], index=pd.Index(['a', 'b', 'c'], name='scenario'))
+        with warnings.catch_warnings():
+            warnings.simplefilter('ignore')
+            for pf in (None, 0.1):
+                kw = {} if pf is None else {'failure_probability': pf}
+                for fn, arg in (('load', cyc), ('cycles', lds)):
+                    gi = getattr(ti.woehler, fn)(arg, **kw)
+                    gf = getattr(tf.woehler, fn)(arg, **kw)
+                    one = [float(getattr(tf.loc[e].woehler, fn)(float(a), **kw)) for e in tf.index for a in arg]
+                    if not (close(np.asarray(gi, dtype=np.float64), np.asarray(gf, dtype=np.float64), 1e-12) and close(np.asarray(gf, dtype=np.float64), one, 1e-12)):
+                        viol.append(('a curve table with integer-typed columns gives other %s than the same table in floats / curve by curve' % fn, {'failure_probability': pf, 'table': ti.to_dict('list')},
+                                     np.asarray(gf, dtype=np.float64).tolist()[:4], np.asarray(gi, dtype=np.float64).tolist()[:4]))
+    except Exception as ex:
+        viol.append(('curve table with integer-typed columns raised %r' % ex, {}, None, None))
     # security factors of per-element curves for a per-element load distribution whose rows are in ANOTHER order: paired by element, not by position
     try:
         import pylife.strength.fatigue  # noqa
